@@ -232,13 +232,30 @@ def exclusions(X: GP, xa, blocked):
     return out
 
 
-def nonempty_constraints(G: GP, x, sigs):
-    """for every signature in `sigs`: at least one of its atoms is true in G (false if it has no atom)"""
-    groups = {sg: [] for sg in sigs}
-    for a, sg in G.sig.items():
-        if a in G.atoms and sg in groups:
-            groups[sg].append(x[a])
-    return [OR(v) for _, v in sorted(groups.items())]
+def kf_constraints(G: GP, x, specs):
+    """assumptions that exclude the instance class of a known finding on the result program G:
+    {"kind": "nonempty", "sigs": [...]}   : every listed signature has a true atom (false if it has no atom)
+    {"kind": "dom_superset", "prefix": p}  : every true atom q(t) whose domain atom <p>q(t) exists implies it; a true
+                                            q(t) without a ground domain atom although <p>q has atoms is excluded"""
+    out = []
+    by_sym = {G.sym[a]: a for a in G.sig if a in G.atoms}
+    for spec in specs:
+        if spec["kind"] == "nonempty":
+            groups = {tuple(sg): [] for sg in spec["sigs"]}
+            for a, sg in G.sig.items():
+                if a in G.atoms and sg in groups:
+                    groups[sg].append(x[a])
+            out += [OR(v) for _, v in sorted(groups.items())]
+        elif spec["kind"] == "dom_superset":
+            pre = spec["prefix"]
+            names = {sg[0] for sg in G.sig.values()}
+            for a, (name, ar) in G.sig.items():
+                if a not in G.atoms or name.startswith(pre) or (pre + name) not in names:
+                    continue
+                sym = G.sym[a]
+                d = by_sym.get(pre + sym)
+                out.append(IMP(x[a], x[d] if d is not None else "false"))
+    return out
 
 
 def q_nocounterpart(X: GP, Y: GP, costs=True, blocked=(), path="auto", nonempty=None):
@@ -265,7 +282,7 @@ def q_nocounterpart(X: GP, Y: GP, costs=True, blocked=(), path="auto", nonempty=
         enc_stable(enc, Y, xb, "B", heads=Y.hidden)
         if nonempty:
             side, regexes = nonempty
-            for f in nonempty_constraints(X if side == "X" else Y, xa if side == "X" else xb, regexes):
+            for f in kf_constraints(X if side == "X" else Y, xa if side == "X" else xb, regexes):
                 enc.add(f)
         nocp.append(f_notstable(enc, Y, xb, "B"))
         if costs:
@@ -275,7 +292,7 @@ def q_nocounterpart(X: GP, Y: GP, costs=True, blocked=(), path="auto", nonempty=
     # slow path: keep the universal quantifier over Y's hidden atoms and level variables
     if nonempty:
         if nonempty[0] == "X":
-            for f in nonempty_constraints(X, xa, nonempty[1]):
+            for f in kf_constraints(X, xa, nonempty[1]):
                 enc.add(f)
         else:
             return None, xa, "slow", "known-finding exclusion cannot be expressed on the slow path"
